@@ -60,9 +60,15 @@ def make_traces(batch_rows, nbad, salt=""):
                              type(None) if rid in ("r2", "r8") else (int if rid == "r10" else None),
                              int if rid == "r9" else None))
     for j in range(nbad):
+        pos = min(j * 2, len(out))
+        if j % 2 == 0 and pos < len(out):
+            # unserialisable because of its TYPES, and a trace of the very function whose serialisable trace comes next
+            # (one call of f returned something the encoder cannot handle, the next one did not)
+            out.insert(pos, CallTrace(out[pos].func, {"a": typing.Tuple[int, ...]}))
+            continue
         f = types.FunctionType(_code(), {}, "bad")
         f.__module__, f.__qualname__ = "m1", "bad%d" % j
-        out.insert(min(j * 2, len(out)), CallTrace(f, {"a": typing.Tuple[int, ...]}))
+        out.insert(pos, CallTrace(f, {"a": typing.Tuple[int, ...]}))
     return out
 
 
@@ -605,6 +611,61 @@ def run_reldir(sc):
     return {"tid": sc["tid"], "events": events}
 
 
+def _open_locked_child(dbpath, pipe, repo):
+    try:
+        import sys
+        sys.path.insert(0, repo)
+        from monkeytype.db.sqlite import SQLiteStore
+        try:
+            st = SQLiteStore.make_store(dbpath)
+            pipe.send(("opened", [list(map(str, (t.module, t.qualname))) for t in st.filter("m1")]))
+        except Exception as e:
+            pipe.send(("refused", type(e).__name__))
+    except Exception as e:
+        pipe.send(("fail", "%s: %s" % (type(e).__name__, e)))
+
+
+def run_open_locked(sc):
+    """sc = {tid, open_locked: True}: a second process opens the store (make_store) while another connection holds the
+    database exclusively for longer than SQLite's busy timeout; it may be refused, it may wait - the committed batch is there
+    afterwards, for the lock holder and for everybody who opens the file later."""
+    ctx = mp.get_context("fork")
+    d = tlc.scratch_dir("mtverif_lock_")
+    dbpath = os.path.join(d, "traces.sqlite3")
+    try:
+        from monkeytype.db.sqlite import SQLiteStore
+        st = SQLiteStore.make_store(dbpath)
+        rows = ["r1", "r2"]
+        events = [{"ev": "AddStart", "c": "c1", "b": "b1", "rows": expected_rows(rows), "nbad": 0}]
+        st.add(make_traces(rows, 0))
+        events.append({"ev": "AddEnd", "c": "c1", "b": "b1", "ok": True, "err": ""})
+        st.conn.close()
+        holder = sqlite3.connect(dbpath, isolation_level=None)
+        holder.execute("BEGIN EXCLUSIVE")
+        parent, child = ctx.Pipe()
+        p = ctx.Process(target=_open_locked_child, args=(dbpath, child, core.REPO), daemon=True)
+        p.start()
+        msg = parent.recv() if parent.poll(40) else ("fail", "no answer")
+        p.join(5)
+        try:
+            holder.execute("COMMIT")
+            holder.close()
+        except sqlite3.Error as e:
+            events.append({"ev": "QueryFailed", "c": "c1", "op": "lock holder commit", "err": str(e)[:80]})
+        if msg[0] == "fail":
+            raise RuntimeError("open-while-locked child: %s" % (msg[1],))
+        st2 = SQLiteStore.make_store(dbpath)
+        for m in ("m1", "m2"):
+            res = [(t.module, t.qualname, t.arg_types, t.return_type, t.yield_type) for t in st2.filter(m)]
+            events.append({"ev": "Filter", "c": "c1", "m": m, "p": [0], "n": 2000, "res": [row_abs(*r) for r in res]})
+        events.append({"ev": "Modules", "c": "c1", "res": list(st2.list_modules())})
+        st2.conn.close()
+        events.append(check_event(dbpath))
+    finally:
+        shutil.rmtree(d, ignore_errors=True)
+    return {"tid": sc["tid"], "events": events}
+
+
 def calibrate_callbacks(rows):
     """Number of progress callbacks an uninterrupted add() of `rows` rows takes (on an empty table)."""
     ctx = mp.get_context("fork")
@@ -627,7 +688,7 @@ def _run_chunk(chunk):
     import logging
     logging.disable(logging.CRITICAL)
     return [(run_bigcut(sc) if "cut" in sc else run_free(sc) if "writers" in sc else run_reldir(sc) if "reldir" in sc
-             else run_behaviour(sc)) for sc in chunk]
+             else run_open_locked(sc) if "open_locked" in sc else run_behaviour(sc)) for sc in chunk]
 
 
 def run_behaviours(scs, procs=16):
@@ -749,6 +810,9 @@ def main(pid, tier, seed, replay=None):
         for which in ("A", "B"):
             scs.append({"tid": len(scs) + 1, "reldir": which})
         plan.append({"family": "one process, two working directories, make_store() of the same RELATIVE file name in each", "behaviours": 2})
+        scs.append({"tid": len(scs) + 1, "open_locked": True})
+        plan.append({"family": "make_store() in a second process while another connection holds the database exclusively beyond the "
+                               "busy timeout", "behaviours": 1})
     records = run_behaviours(scs)
     by_tid = {r["tid"]: r for r in records}
     sc_by_tid = {s["tid"]: s for s in scs}
@@ -765,6 +829,9 @@ def main(pid, tier, seed, replay=None):
                 continue
             if "reldir" in sc:
                 run.violation(dict(signature(rec, clause), relative_store_path=sc["reldir"]), {k: sc[k] for k in sc if k != "tid"})
+                continue
+            if "open_locked" in sc:
+                run.violation(dict(signature(rec, clause), opened_while_locked=True), {k: sc[k] for k in sc if k != "tid"})
                 continue
             run.violation(signature(rec, clause), {"hist": sc["hist"], "big": sc.get("big", False)})
     kinds = lambda r: {e["ev"] for e in r["events"]}  # noqa: E731
